@@ -367,6 +367,31 @@ func concStr(v Value) (string, bool) {
 // unsigned order on ordinals is the byte-wise order on the strings.  The width 61 is used for nothing else.
 const OrdW = 61
 
+// intfloat: see smt.IntFW
+func isIntF(t *smt.Term) bool { return t.Sort.K == smt.KBV && t.Sort.W == smt.IntFW }
+
+func (ex *Exec) intFPair(x, y *smt.Term) (*smt.Term, *smt.Term) {
+	conv := func(t *smt.Term) *smt.Term {
+		if isIntF(t) {
+			return t
+		}
+		if t.Sort.K == smt.KFP && t.IsConst() {
+			var f float64
+			if t.Sort.W == 32 {
+				f = float64(math.Float32frombits(uint32(t.U)))
+			} else {
+				f = math.Float64frombits(t.U)
+			}
+			if f == math.Trunc(f) && math.Abs(f) < 1<<40 {
+				return ex.B.BVC(uint64(int64(f)), smt.IntFW)
+			}
+		}
+		ex.unsupported("an intfloat value meets a float that is not a small integer constant")
+		return nil
+	}
+	return conv(x), conv(y)
+}
+
 func isOrd(t *smt.Term) bool { return t.Sort.K == smt.KBV && t.Sort.W == OrdW }
 
 func ordString(k uint64) string {
